@@ -321,7 +321,7 @@ func blockOnListChangeWorker(
 
 	verifPoint("blk.before_register", ctx.cs.id, "")
 	ws := blockFn()
-	defer ctx.dsc.ds.leaveListBlock(ws)
+	defer func() { ctx.dsc.ds.leaveListBlock(ws) }()
 	verifPoint("blk.after_register", ctx.cs.id, "")
 
 	// with notification registered, try operation again immediately
@@ -371,7 +371,15 @@ func blockOnListChangeWorker(
 			return
 		}
 		verifPoint("blk.retry_failed", ctx.cs.id, "")
-		// a different client obtained the list element before this client could, so try again
+		// a different client obtained the list element before this client could, so try again;
+		// the wake-up has unlinked this client from the wait queues, so it has to register again
+		// (and look once more, in case an element arrived in between)
+		ctx.dsc.ds.leaveListBlock(ws)
+		ws = blockFn()
+		output = op()
+		if output.data != nil {
+			return
+		}
 	}
 }
 
